@@ -46,7 +46,11 @@ _srv = None
 
 
 def make_server():
-    s = opbase.make_op(jwt_tokens=True)
+    from idpyoidc.server.authz import AuthzHandling
+    # access tokens may be exchanged (RFC 8693): the exchanged token belongs to the client that asked for it
+    rules = {"authorization_code": {"supports_minting": ["access_token", "refresh_token", "id_token"], "max_usage": 1},
+             "access_token": {"supports_minting": ["access_token"]}, "refresh_token": {"supports_minting": ["access_token", "refresh_token", "id_token"]}}
+    s = opbase.make_op(jwt_tokens=True, extra={"authz": {"class": AuthzHandling, "kwargs": {"grant_config": {"usage_rules": rules, "expires_in": 43200}}}})
     ctx = s.context
     ctx.userinfo.db["diana"] = dict(USER)
     s.get_endpoint("userinfo").kwargs.update(copy.deepcopy(POINTS["userinfo"]))
@@ -83,7 +87,9 @@ def gen_flow(rng):
     return {"client": rng.choice(FLOW_CLIENTS), "rt": rng.choice(["code", "code", "code", "id_token", "code id_token", "id_token token", "code id_token token"]),
             "scope": scope, "claims": claims, "intro": rng.sample(["owner", "outsider", "rs"], 3),
             # the user logs out from this client afterwards (the provider lives on: later flows log in again, and out again)
-            "logout": rng.random() < 0.35}
+            "logout": rng.random() < 0.35,
+            # another client exchanges the access token for one of its own: what that token releases follows THAT client's rules
+            "exchange_by": rng.choice([None, None] + [c for c in FLOW_CLIENTS])}
 
 
 def cases(rng, tier):
@@ -136,6 +142,18 @@ def run_flow(s, f):
                 out["introspection"] = _user_attrs(i)
             else:
                 out["introspection_" + who] = {"active": bool(i.get("active")), "attrs": _user_attrs(i), "sub": "sub" in i}
+        xb = f.get("exchange_by")
+        if xb and xb != cid:
+            xr = tk.process_request(tk.parse_request(dict(client_id=xb, client_secret=ctx.cdb[xb]["client_secret"],
+                                                          grant_type="urn:ietf:params:oauth:grant-type:token-exchange", subject_token=at,
+                                                          subject_token_type="urn:ietf:params:oauth:token-type:access_token")))
+            xa = xr.get("response_args", {}).get("access_token") if isinstance(xr, dict) else None
+            if xa:
+                out["x_access_token"] = _user_attrs(_payload(xa))
+                xu = ui.process_request(ui.parse_request({}, http_info={"headers": {"authorization": "Bearer " + xa}}))["response_args"]
+                out["x_userinfo"] = _user_attrs(xu)
+                # (introspection by the exchanging client is gated out by the audience restriction: the exchange grant names no resources)
+                out["x_scope"] = xr["response_args"].get("scope")
         if f.get("logout"):
             sid = ctx.session_manager.get_session_info_by_token(at, handler_key="access_token")["branch_id"]
             s.get_endpoint("session").logout_from_client(sid)
@@ -166,7 +184,18 @@ def impl(c):
 
 
 def point_of(obs_key):
+    if obs_key.startswith("x_"):
+        return obs_key[2:]
     return "id_token" if obs_key == "id_token_front" else obs_key
+
+
+def flow_for(obs_key, f, o=None):
+    """the flow as the release point sees it: for the exchanged token the client that exchanged, no claims parameter of its own
+    (the exchange grant keeps the original authorization request: its claims parameter still applies)"""
+    if not obs_key.startswith("x_"):
+        return f
+    sc = (o or {}).get("x_scope") or f["scope"]
+    return dict(f, client=f["exchange_by"], scope=sc if isinstance(sc, list) else sc.split(" "))
 
 
 def rt_only(obs_key, f):
@@ -210,7 +239,7 @@ def resolved(obs_key, f):
     return r["base"], always, bool(by_scope), r["scope_claims"], r["requested"]
 
 
-OBS_POINTS = ("id_token_front", "id_token", "userinfo", "access_token", "introspection")
+OBS_POINTS = ("id_token_front", "id_token", "userinfo", "access_token", "introspection", "x_access_token", "x_userinfo")
 US = "\x1f"
 
 
@@ -238,7 +267,7 @@ def model_lines(c, obs):
         for key in OBS_POINTS:
             if key not in o:
                 continue
-            r = raw_conf(key, f)
+            r = raw_conf(key, flow_for(key, f, o))
             lines.append("\t".join(["claims", "resolve", enc_list([_spec(k, v) for k, v in r["base"].items()]), enc_list(r["m_always"]), _ob(r["m_by_scope"]),
                                     _ob(r["per_client"]), _ob(r["bs_nonempty"]), _ob(r["bs_point"]), _ob(r["bs_sec"]), enc_list(r["al_point"]),
                                     enc_list(r["al_sec"]), enc_str(point_of(key)), _ob(rt_only(key, f)), enc_list(r["scope_claims"]),
@@ -278,11 +307,12 @@ def oracle(c, obs):
         for point in OBS_POINTS:
             if point not in o:
                 continue
-            base, always, by_scope, sc, req = resolved(point, f)
+            base, always, by_scope, sc, req = resolved(point, flow_for(point, f, o))
             permitted = set(base) | set(always) | (set(sc) if by_scope else set()) | set(req)
             extra = set(o[point]) - permitted
             if extra:
-                v.append({"cls": "released-beyond-permitted", "point": point, "extra": sorted(extra), "rt": f["rt"]})
+                v.append({"cls": "released-beyond-permitted", "point": point, "extra": sorted(extra), "rt": f["rt"],
+                          "exchange": [f["client"], f.get("exchange_by")] if point.startswith("x_") else None})
         al = o.get("after_logout")
         if al and (al["userinfo"] or al["introspection"]):
             v.append({"cls": "released-for-an-invalid-token", "after": "logout", "released": al, "client": f["client"]})
